@@ -4,9 +4,20 @@ from .rngseam import RngSeam, Policy
 from .runner import h
 
 
+CURRENT_SEAM = None
+
+
+def mark(event):
+    """Non-random marker in the request log (lets a policy see progress of the code under test)."""
+    if CURRENT_SEAM is not None:
+        CURRENT_SEAM.log.append({"fn": "mark", "event": event})
+
+
 def run_with_seam(fn, chooser, policy):
     """fn() executed with np.random answered by chooser; returns (value | exception, log)."""
+    global CURRENT_SEAM
     seam = RngSeam(chooser, policy)
+    CURRENT_SEAM = seam
     with seam:
         try:
             val = fn()
